@@ -43,6 +43,14 @@ NEEDS = {
  "C15-c": ("C15", "uf_find's path compression starts at map[e]: the head of a 2+-hop alias chain keeps pointing at an intermediate alias and expand_shortcuts asserts; needs a JSON $ref -> $ref -> schema chain whose head is used twice (or head and link once each)", ["C15", "C06"]),
  "C17-c": ("C17", "llg_par_compute_mask zero-fills the caller buffer only when a sample mask exists: at the stop step (or on error) the buffer keeps its previous contents and the EOS bit is OR-ed into them; needs the parallel API at the stop step with a non-zero buffer", ["C17"]),
  "C19-c": ("C19", "negated_token_ranges: `end <= current` instead of `end < current`: an excluded range ending exactly at the first not-yet-covered id is skipped, so <[^0]> allows 0, <[^65,66]> allows 66", ["C19"]),
+ "C03-d": ("C03", "json/compiler.rs always_non_empty() treats RegexAst::And like Concat: an intersection of conflicting string constants (allOf of consts, const + enum, disjoint enums) in an optional position is not pruned and compiles to a lexeme with an empty language: dead end after the key and ':'", ["C03"]),
+ "C06-d": ("C06", "gen_json_object reserves a patternProperties key regex only after its value schema compiled: an unsatisfiable pattern schema (false, or emptied by an intersection) no longer excludes its keys from additionalProperties, so {\"x_a\":1} is admitted under {\"^x_\": false}", ["C06"]),
+ "C07-d": ("C07", "GrammarBuilder::string() keys its literal cache by the name truncated to 20 bytes: two property names (or literals) sharing their first 20 bytes get the same lexeme; the valid instance is refused where the second key differs", ["C07", "C06"]),
+ "C12-d": ("C12", "TokenParser::rollback treats only the primary EOS as a zero-byte token: rolling back a secondary EOS (multi-EOS vocabulary) drops 6 parser bytes too many", ["C12", "C11", "C18"]),
+ "C13-d": ("C13", "forced_byte(): the is_accepting() guard runs after the lexer's ForcedByte quick path: at an accepting lexeme boundary where every optional continuation starts with the same byte that byte is forced and the shorter complete output is lost (\"ab\" tail?)", ["C13", "C01"]),
+ "C14-d": ("C14", "is_accepting() keeps a one-entry cache in SharedState (shared by plain clones) keyed by lexer state / row / pending bytes: a clone at the same row with a different history gets its sibling's answer (EOS bit, stop); needs sibling histories of equal length differing in acceptance and the sibling's query last", ["C14"]),
+ "C16-d": ("C16", "greedy_tokenize resumes after the longest trie path instead of the longest token: bytes between them are dropped when a proper prefix of a token is not itself a token and the text leaves that path", ["C16"]),
+ "C18-d": ("C18", "same site as C12-d, found independently: rollback over a secondary EOS rewinds the parser behind the committed tokens or fails permanently", ["C18", "C12"]),
 }
 ids = sys.argv[1:] or sorted(NEEDS)
 for sid in ids:
